@@ -40,7 +40,7 @@ from sqlglot.dialects.dialect import (
     ts_or_ds_add_cast,
 )
 from sqlglot.generator import unsupported_args
-from sqlglot.helper import ensure_list, seq_get
+from sqlglot.helper import ensure_list, is_int, seq_get
 
 
 DATE_DIFF_FACTOR = {
@@ -564,7 +564,11 @@ class PostgresGenerator(generator.Generator):
         unit = expression.text("unit").lower()
 
         this = expression.this
-        if unit.startswith("quarter") and isinstance(this, exp.Literal):
+        if (
+            unit.startswith("quarter")
+            and isinstance(this, exp.Literal)
+            and (this.is_number or is_int(this.name))
+        ):
             this.replace(exp.Literal.string(int(this.to_py()) * 3))
             expression.args["unit"].replace(exp.var("MONTH"))
 
